@@ -20,7 +20,7 @@ RULE = (
     "(step cost 0 makes 'exactly at E' reachable on the in-memory broker); then a DEAD-category consumer must retrieve an "
     "expired message with identical key, payload and parameters. mode 'worker': a worker (tasks_limit 1-2, so that prefetched "
     "messages wait behind long actors) processes 2-6 jobs with and without ttl: immediate, delayed, retried (timestamp "
-    "unchanged) and recurring (timestamp restarted). Oracle: no actor start for a delivery whose consume() returned after E "
+    "unchanged) and recurring (timestamp restarted). Oracle: no actor start after E (+5 ms), whether the message was taken after E or expired while waiting for a free slot "
     "(+ client latency allowance on network brokers); such messages end in 'dead'; messages taken at or before E, or without "
     "ttl, are in 'dead' only after a recorded nack. non-trivial = an expiry was crossed in the run; distinct = digest."
 )
@@ -208,6 +208,12 @@ async def _worker(sim, sc, out):
                 break
             nxt = dels[i + 1].end_seq if i + 1 < len(dels) else 1 << 60
             started = [e for e in evs if e.op == "actor_start" and d.end_seq < e.seq < nxt]
+            if started and d.end_us <= E and started[0].us > E + 5000 + 6 * lat:
+                # taken while still valid, but expired before the worker could pass it to the actor (no free slot)
+                crossed = True
+                V.append(violation(
+                    "executed-after-expiry", f"C12/{b}/worker/executed-although-expired-before-start/waited-for-a-free-slot", id=jid,
+                    started_late_by_us=started[0].us - E, delivered_before_expiry_by_us=E - d.end_us))
             if d.end_us > E:
                 crossed = True
                 if started:
